@@ -28,6 +28,40 @@ impl Known {
     }
 }
 
+/// A panic signature carries the panic message; messages that quote input text (`str` slicing: "... is not a char
+/// boundary; it is inside 'x' (bytes #..#) of `text`") would give one key per text. Quoted parts are blanked.
+pub fn normalise_panic_key(sig: &str) -> String {
+    let parts: Vec<&str> = sig.split('|').collect();
+    if parts.len() < 5 || parts[0] != "panic" {
+        return sig.to_string();
+    }
+    let msg: Vec<char> = parts[3].chars().collect();
+    let mut out = String::new();
+    let mut i = 0;
+    while i < msg.len() {
+        let c = msg[i];
+        if c == '`' {
+            // up to the closing backtick, or to the end (the message may have been cut)
+            let end = msg[i + 1..].iter().position(|d| *d == '`').map(|p| i + 1 + p).unwrap_or(msg.len() - 1);
+            out.push_str("`..`");
+            i = end + 1;
+            continue;
+        }
+        if c == '\'' {
+            if let Some(p) = msg[i + 1..].iter().take(6).position(|d| *d == '\'') {
+                out.push_str("'..'");
+                i = i + 1 + p + 1;
+                continue;
+            }
+        }
+        out.push(c);
+        i += 1;
+    }
+    let mut v: Vec<String> = parts.iter().map(|p| p.to_string()).collect();
+    v[3] = out;
+    v.join("|")
+}
+
 #[derive(Clone, Debug)]
 pub struct Fail {
     pub key: String,
@@ -142,7 +176,7 @@ fn isolate_once(family_of: &dyn Fn(u16) -> String, body: &dyn Fn(&Reporter) -> V
         let rep = Reporter { fd: fds[1] };
         let v = match panics::guarded(|| body(&rep)) {
             Ok(v) => v,
-            Err((sig, msg)) => Verdict::Fail { key: sig, msg },
+            Err((sig, msg)) => Verdict::Fail { key: normalise_panic_key(&sig), msg },
         };
         let js = serde_json::to_vec(&v).unwrap_or_default();
         let mut frame = Vec::with_capacity(js.len() + 5);
